@@ -3,6 +3,7 @@ package accum
 import (
 	"context"
 	"errors"
+	"fmt"
 	"io"
 	"sync"
 
@@ -162,7 +163,10 @@ buffersLoop:
 				ObjectData:    data,
 			}
 
-			kind := iplddecoders.Kind(data[1])
+			kind, err := iplddecoders.GetKind(data)
+			if err != nil {
+				return fmt.Errorf("failed to get the kind of %s: %w", cid_, err)
+			}
 			if kind == oa.flushOnKind {
 				// element is parent
 				oa.sendToFlusher(&element, children)
